@@ -124,6 +124,21 @@ def native(pid, mode, payload=None, timeout=int(os.environ.get("GVC_NATIVE_TIMEO
     return {"ok": False, "error": f"native harness gave no result (exit {p.returncode}): {p.stderr[-2000:]}"}
 
 
+def _lean_status():
+    """the engine's summation / index-arithmetic rules are stated and proved in lean/Rules.lean (Mathlib); ./setup.sh compiles the
+    file and records the result; the link between a Lean statement and the Python rule is by inspection"""
+    try:
+        rec = json.load(open(os.path.join(ROOT, "lean", "compiled.json")))
+        sha = hashlib.sha256(open(os.path.join(ROOT, "lean", "Rules.lean"), "rb").read()).hexdigest()[:16]
+        if rec.get("sha256") != sha:
+            return "engine rules (BigSum linearity / congruence / Fubini / delta / re-indexing / non-negativity, mixed radix): lean/Rules.lean changed since it was last compiled -- trusted"
+        return (f"engine rules (BigSum linearity / congruence / Fubini / delta / re-indexing / non-negativity, mixed radix): proved in lean/Rules.lean "
+                f"({rec.get('theorems')} theorems, {'compiled without errors' if rec.get('ok') else 'COMPILATION FAILED'} by {rec.get('lean')}, sha {sha}); "
+                "correspondence statement <-> Python rule by inspection")
+    except Exception:
+        return "engine rules (BigSum linearity / congruence / Fubini / delta / re-indexing / non-negativity, mixed radix): lean/Rules.lean not compiled in this sandbox -- trusted"
+
+
 def _owner(pid, ob):
     m = re.match(r"(C\d\d)/", ob.get("name", ""))
     if m and os.path.exists(os.path.join(ROOT, "gvc", "native", m.group(1).lower() + ".py")):
@@ -317,7 +332,7 @@ def run_property(pid, tier, module, seed=0):
         "jobs_retried_on_quiet_machine": retried,
         "library_contract_conformance": {k: conformance.get(k) for k in ("ran", "ok", "cases", "models", "failures", "error") if k in conformance},
         "functions_under_contract": module.FUNCTIONS,
-        "trusted_base": module.TRUSTED + [f"library contract model: {x}" for x in lib_used],
+        "trusted_base": module.TRUSTED + [f"library contract model: {x}" for x in lib_used] + [_lean_status()],
         "samples": samples,
         "vacuity_problems": vac_problems,
         "source_hashes": loader.source_hashes(),
